@@ -42,8 +42,18 @@ pub trait GCWork<VM: VMBinding>: 'static + Send {
             worker_stat.measure_work(TypeId::of::<Self>(), type_name::<Self>(), mmtk)
         };
 
+        #[cfg(mmtk_verif)]
+        crate::verif::emit(|| {
+            format!(
+                "\"ev\":\"PacketStart\",\"w\":{},\"type\":\"{}\"",
+                worker.ordinal,
+                super::work_bucket::verif_short_type(std::any::type_name::<Self>())
+            )
+        });
         // Do the actual work
         self.do_work(worker, mmtk);
+        #[cfg(mmtk_verif)]
+        crate::verif::emit(|| format!("\"ev\":\"PacketEnd\",\"w\":{}", worker.ordinal));
 
         #[cfg(feature = "work_packet_stats")]
         // Finish collecting statistics
